@@ -58,6 +58,9 @@ type c13Case struct {
 	// define (a list put together by hand). Such a reference resolves neither before nor after: Optimize may not invent a
 	// definition for it, and every writer must behave after Optimize as it did before
 	Dangling bool `json:"dangling,omitempty"`
+	// Anon (Source ""): the list defines a style and a region whose identifier is the empty string (what the TTML reader
+	// makes of definitions without xml:id); the first cue refers to the region, its first run to the style
+	Anon bool `json:"anonymous_definitions,omitempty"`
 }
 
 func init() { register("c13", checkC13) }
@@ -205,6 +208,13 @@ func buildC13(c c13Case) (*astisub.Subtitles, string) {
 		}
 		it.Lines = []astisub.Line{ln}
 		s.Items = append(s.Items, it)
+	}
+	if c.Anon && len(s.Items) > 0 && s.Styles != nil && s.Regions != nil {
+		col := "white"
+		s.Styles[""] = &astisub.Style{ID: "", InlineStyle: &astisub.StyleAttributes{TTMLColor: &col}}
+		s.Regions[""] = &astisub.Region{ID: "", InlineStyle: &astisub.StyleAttributes{WebVTTWidth: "40%"}}
+		s.Items[0].Region = s.Regions[""]
+		s.Items[0].Lines[0].Items[0].Style = s.Styles[""]
 	}
 	if c.Dangling && len(s.Items) > 0 {
 		it := s.Items[len(s.Items)-1]
@@ -439,14 +449,23 @@ func checkC13(c c13Case) string {
 	if len(items) > 0 {
 		var m string
 		// reference: the un-optimized list written and re-read the same way (on a deep-enough copy: writers are pure, C19)
-		if c.Dangling {
+		if c.Dangling || c.Anon {
 			outcomeBefore = writeOutcomes(s)
 		} else if refBefore, m = writeReadAll(s); m != "" {
 			return "before Optimize: " + m
 		}
 	}
 	wantS, wantR := reachC13(c)
-	if c.Source == "ssa" || c.Source == "vtt" {
+	if c.Anon && len(c.Cues) > 0 {
+		// the first cue's region and its first run's style were replaced by the anonymous definitions
+		c2 := c
+		c2.Cues = append([]c13Cue(nil), c.Cues...)
+		c2.Cues[0].Region = ""
+		c2.Cues[0].Runs = append([]c13Run(nil), c.Cues[0].Runs...)
+		c2.Cues[0].Runs[0].Style = ""
+		wantS, wantR = reachC13(c2)
+		wantS[""], wantR[""] = true, true
+	} else if c.Source == "ssa" || c.Source == "vtt" {
 		// parsed sources carry definitions the case model does not list (e.g. the WebVTT default style): traverse the object graph
 		wantS, wantR = reachOf(s)
 	} else if gs, gr := reachOf(s); !c.CopyRefs && !c.Dangling && fmt.Sprint(len(gs), len(gr)) != fmt.Sprint(len(wantS), len(wantR)) {
@@ -517,7 +536,7 @@ func checkC13(c c13Case) string {
 	if len(s.Styles) != len(expS) || len(s.Regions) != len(expR) {
 		return "a second Optimize changed the definitions again"
 	}
-	if c.Dangling {
+	if c.Dangling || c.Anon {
 		after := writeOutcomes(s)
 		for _, w := range allWriters {
 			if after[w.name] != outcomeBefore[w.name] {
@@ -630,6 +649,12 @@ func TestC13(t *testing.T) {
 		}
 		c.RemoveStyling = rapid.IntRange(0, 4).Draw(rt, "removestyling") == 0
 		c.Dangling = c.Source == "" && nc > 0 && rapid.IntRange(0, 5).Draw(rt, "dangling") == 0
+		c.Anon = c.Source == "" && nc > 0 && !c.NilStyles && !c.NilRegions && rapid.IntRange(0, 5).Draw(rt, "anon") == 0
+		if c.RemoveStyling && nc > 0 && rapid.Bool().Draw(rt, "bracetext") {
+			// text is text, whatever it looks like (no writer or reader is involved in this case)
+			cu := &c.Cues[rapid.IntRange(0, nc-1).Draw(rt, "bracecue")]
+			cu.Runs[0].Text = rapid.SampledFrom([]string{"{\\an8}top", "a{\\i1}b{\\i0}", "{\\o/} hurray", "{x} <i>y</i> &amp;", "\\d{\\d+}x"}).Draw(rt, "bracetextv")
+		}
 		// labels
 		wantS, wantR := reachC13(c)
 		direct := map[string]bool{}
@@ -666,6 +691,9 @@ func TestC13(t *testing.T) {
 		}
 		if c.Dangling {
 			ls = append(ls, "reference-to-an-undefined-style-or-region")
+		}
+		if c.Anon {
+			ls = append(ls, "definitions-with-an-empty-identifier")
 		}
 		if unordered && nc > 1 {
 			ls = append(ls, "unordered-cues")
